@@ -573,4 +573,11 @@ def quiet_tf():
     warnings.filterwarnings("ignore")
     import tensorflow as tf
     tf.get_logger().setLevel("ERROR")
+    try:
+        # the oneDNN (mkldnn) convolution kernels are also wrong / non-deterministic for some strided
+        # geometries in PyTorch on this CPU (found by the C11 builder); conv is in the trusted base
+        import torch
+        torch.backends.mkldnn.enabled = False
+    except Exception:  # noqa: BLE001
+        pass
     return tf
